@@ -3,6 +3,7 @@
 package corerad
 
 import (
+	"github.com/mdlayher/corerad/internal/netstate"
 	"fmt"
 	"context"
 	"math/rand"
@@ -19,32 +20,32 @@ import (
 )
 
 // A schedEvent is one RA request handed to the scheduler at offset t after its start.
-type schedEvent struct {
+type vfSchedEvent struct {
 	t    time.Duration
 	host int // 0 = all-nodes multicast request, else index into vfHosts (unicast)
 }
 
-func reqAddr(host int) netip.Addr {
+func vfReqAddr(host int) netip.Addr {
 	if host == 0 {
 		return vfAllNodes
 	}
 	if host >= len(vfHosts) {
-		return manyHost(host)
+		return vfManyHost(host)
 	}
 	return vfHosts[host]
 }
 
 // runSched drives the real (*Advertiser).schedule in virtual time and records every write.
-func runSched(t *testing.T, out *vfh.Out, op string, unicastOnly bool, evs []schedEvent, stop time.Duration) {
+func vfRunSched(t *testing.T, out *vfh.Out, op string, unicastOnly bool, evs []vfSchedEvent, stop time.Duration) {
 	out.Pending(fmt.Sprintf("runSched %s unicastOnly=%v events=%+v stop=%v", op, unicastOnly, evs, stop))
 	synctest.Test(t, func(t *testing.T) {
-		v := newVfAdv(vfAdvConfig(200*time.Second, 600*time.Second, unicastOnly, 1800*time.Second), false, nil)
+		v := vfNewVfAdv(vfAdvConfig(200*time.Second, 600*time.Second, unicastOnly, 1800*time.Second), false, nil)
 		ctx, cancel := context.WithCancel(context.Background())
 		ipC := make(chan netip.Addr, 16)
 
 		// schedule() seeds its PRNG from the clock when it starts: replicate the draws
 		prng := rand.New(rand.NewSource(time.Now().UnixNano()))
-		v.conn = newVfConn()
+		v.conn = vfNewVfConn()
 		done := make(chan error, 1)
 		go func() { done <- v.a.schedule(ctx, v.conn, ipC) }()
 		synctest.Wait()
@@ -72,7 +73,7 @@ func runSched(t *testing.T, out *vfh.Out, op string, unicastOnly bool, evs []sch
 			if d := e.t - time.Since(start); d > 0 {
 				time.Sleep(d)
 			}
-			ipC <- reqAddr(e.host)
+			ipC <- vfReqAddr(e.host)
 			synctest.Wait()
 		}
 		if d := stop - time.Since(start); d > 0 {
@@ -92,10 +93,10 @@ func runSched(t *testing.T, out *vfh.Out, op string, unicastOnly bool, evs []sch
 		if err != nil {
 			impl.S("err")
 		} else {
-			ws := sortedWrites(v.conn.snapshot())
+			ws := vfSortedWrites(v.conn.snapshot())
 			impl.S("ok").N(len(ws))
 			for _, w := range ws {
-				impl.I(int64(w.begin)).B(w.dst == vfAllNodes).N(hostID(w.dst))
+				impl.I(int64(w.begin)).B(w.dst == vfAllNodes).N(vfHostID(w.dst))
 			}
 			cs := v.counters()
 			impl.N(cs["sent:unicast"]).N(cs["sent:multicast"])
@@ -105,7 +106,7 @@ func runSched(t *testing.T, out *vfh.Out, op string, unicastOnly bool, evs []sch
 	})
 }
 
-var schedGrid = []time.Duration{100 * time.Millisecond, time.Second, 2900 * time.Millisecond, 3*time.Second - 1, 3 * time.Second,
+var vfSchedGrid = []time.Duration{100 * time.Millisecond, time.Second, 2900 * time.Millisecond, 3*time.Second - 1, 3 * time.Second,
 	3*time.Second + 1, 3100 * time.Millisecond, 6 * time.Second}
 
 func verifSched(t *testing.T, r *vfh.Rand, out *vfh.Out, op string) {
@@ -115,17 +116,17 @@ func verifSched(t *testing.T, r *vfh.Rand, out *vfh.Out, op string) {
 	if vfh.Thorough() {
 		k = 4
 	}
-	var rec func(evs []schedEvent, at time.Duration)
-	rec = func(evs []schedEvent, at time.Duration) {
+	var rec func(evs []vfSchedEvent, at time.Duration)
+	rec = func(evs []vfSchedEvent, at time.Duration) {
 		if len(evs) > 0 {
-			runSched(t, out, op, false, evs, at+7*time.Second+1)
+			vfRunSched(t, out, op, false, evs, at+7*time.Second+1)
 		}
 		if len(evs) == k {
 			return
 		}
-		for _, g := range schedGrid {
+		for _, g := range vfSchedGrid {
 			for _, h := range []int{0, 1} {
-				rec(append(append([]schedEvent(nil), evs...), schedEvent{at + g, h}), at+g)
+				rec(append(append([]vfSchedEvent(nil), evs...), vfSchedEvent{at + g, h}), at+g)
 			}
 		}
 	}
@@ -138,12 +139,12 @@ func verifSched(t *testing.T, r *vfh.Rand, out *vfh.Out, op string) {
 		if vfh.Thorough() && r.Chance(1, 30) {
 			ln = 1000
 		}
-		var evs []schedEvent
+		var evs []vfSchedEvent
 		at := time.Duration(0)
 		for j := 0; j < ln; j++ {
 			switch r.Intn(6) {
 			case 0:
-				at += vfh.Pick(r, schedGrid)
+				at += vfh.Pick(r, vfSchedGrid)
 			case 1:
 				at += time.Duration(r.Range(0, int64(10*time.Second)))
 			case 2: // burst
@@ -155,13 +156,13 @@ func verifSched(t *testing.T, r *vfh.Rand, out *vfh.Out, op string) {
 			if r.Chance(2, 5) {
 				h = 1 + r.Intn(4)
 			}
-			evs = append(evs, schedEvent{at, h})
+			evs = append(evs, vfSchedEvent{at, h})
 		}
 		stop := at + time.Duration(r.Range(1, int64(8*time.Second)))
 		if r.Chance(1, 4) { // stop while transmissions are still pending
 			stop = at/2 + 1
 		}
-		runSched(t, out, op, r.Chance(1, 5), evs, stop|1)
+		vfRunSched(t, out, op, r.Chance(1, 5), evs, stop|1)
 	}
 
 	// (3) hundreds of distinct solicitors between multicast triggers (whatever the scheduler keeps
@@ -170,11 +171,11 @@ func verifSched(t *testing.T, r *vfh.Rand, out *vfh.Out, op string) {
 	// multicast trigger g after the first one; quiet gap]
 	n = vfh.N(12, 200)
 	for i := 0; i < n; i++ {
-		var evs []schedEvent
+		var evs []vfSchedEvent
 		at := time.Duration(r.Range(int64(3*time.Second), int64(5*time.Second)))
 		host := 100
 		for cyc := 1 + r.Intn(3); cyc > 0; cyc-- {
-			evs = append(evs, schedEvent{at, 0})
+			evs = append(evs, vfSchedEvent{at, 0})
 			k := 100 + r.Intn(200)
 			w := time.Duration(r.Range(int64(200*time.Millisecond), int64(2900*time.Millisecond)))
 			g := vfh.Pick(r, []time.Duration{w + time.Millisecond, w + 50*time.Millisecond, 2900 * time.Millisecond, 3*time.Second - 1, 3100 * time.Millisecond})
@@ -182,16 +183,16 @@ func verifSched(t *testing.T, r *vfh.Rand, out *vfh.Out, op string) {
 				g = w + time.Millisecond
 			}
 			for j := 0; j < k; j++ {
-				evs = append(evs, schedEvent{at + time.Duration(j+1)*w/time.Duration(k+1), host})
+				evs = append(evs, vfSchedEvent{at + time.Duration(j+1)*w/time.Duration(k+1), host})
 				host++
 			}
-			evs = append(evs, schedEvent{at + g, 0})
+			evs = append(evs, vfSchedEvent{at + g, 0})
 			if r.Bool() { // and one more right behind it
-				evs = append(evs, schedEvent{at + g + time.Duration(r.Range(1, int64(400*time.Millisecond))), 0})
+				evs = append(evs, vfSchedEvent{at + g + time.Duration(r.Range(1, int64(400*time.Millisecond))), 0})
 			}
 			at += g + time.Duration(r.Range(int64(3500*time.Millisecond), int64(8*time.Second)))
 		}
-		runSched(t, out, op, false, evs, (at+4*time.Second)|1)
+		vfRunSched(t, out, op, false, evs, (at+4*time.Second)|1)
 	}
 }
 
@@ -199,7 +200,7 @@ func verifSched(t *testing.T, r *vfh.Rand, out *vfh.Out, op string) {
 // full advertiser scenarios: Run with the scripted connection, the real multicast loop and
 // listener; solicitations and other messages arrive through ReadFrom.
 
-type advEvent struct {
+type vfAdvEvent struct {
 	t    time.Duration
 	kind int // 0 RS, 1 RA, 2 NS, 3 NA
 	host int // index into vfHosts (0 = unspecified source)
@@ -207,7 +208,7 @@ type advEvent struct {
 	slla bool
 }
 
-func advMessage(e advEvent) ndp.Message {
+func vfAdvMessage(e vfAdvEvent) ndp.Message {
 	switch e.kind {
 	case 0:
 		rs := &ndp.RouterSolicitation{}
@@ -224,14 +225,21 @@ func advMessage(e advEvent) ndp.Message {
 	}
 }
 
-var advTypeNames = []string{"router solicitation", "router advertisement", "neighbor solicitation", "neighbor advertisement"}
+var vfAdvTypeNames = []string{"router solicitation", "router advertisement", "neighbor solicitation", "neighbor advertisement"}
 
-func runAdv(t *testing.T, out *vfh.Out, op string, min, max time.Duration, unicastOnly bool, evs []advEvent, stop time.Duration, failWrite int) {
+func vfRunAdv(t *testing.T, out *vfh.Out, op string, min, max time.Duration, unicastOnly bool, evs []vfAdvEvent, stop time.Duration, failWrite int) {
 	out.Pending(fmt.Sprintf("runAdv %s min=%v max=%v unicastOnly=%v events=%+v stop=%v failWrite=%d", op, min, max, unicastOnly, evs, stop, failWrite))
 	synctest.Test(t, func(t *testing.T) {
 		// a unicast-only interface is stopped as a TERMINATING one: it never transmits to a multicast
 		// destination at all — not even the final zero-lifetime RA
-		v := newVfAdv(vfAdvConfig(min, max, unicastOnly, 1800*time.Second), unicastOnly, nil)
+		// with a scripted failing transmission the advertiser is wired as Server.BuildTasks wires it:
+		// to an open link-state channel (on which nothing arrives) — the failure of another member
+		// of the task's group must end the task whether or not the link watcher has anything to do
+		var watchC <-chan netstate.Change
+		if failWrite >= 0 {
+			watchC = make(chan netstate.Change)
+		}
+		v := vfNewVfAdv(vfAdvConfig(min, max, unicastOnly, 1800*time.Second), unicastOnly, watchC)
 		if failWrite >= 0 {
 			v.conn.writeErr = func(n int, _ netip.Addr) error {
 				if n == failWrite {
@@ -288,7 +296,7 @@ func runAdv(t *testing.T, out *vfh.Out, op string, min, max time.Duration, unica
 			if d := e.t - time.Since(start); d > 0 {
 				time.Sleep(d)
 			}
-			if !v.conn.deliver(vfRead{m: advMessage(e), hop: e.hop, host: vfHosts[e.host].WithZone("vf0")}) {
+			if !v.conn.deliver(vfRead{m: vfAdvMessage(e), hop: e.hop, host: vfHosts[e.host].WithZone("vf0")}) {
 				dead = true
 				break
 			}
@@ -318,21 +326,21 @@ func runAdv(t *testing.T, out *vfh.Out, op string, min, max time.Duration, unica
 		}
 
 		impl := new(vfh.Toks).S(status).B(dead)
-		ws := sortedWrites(v.conn.snapshot())
+		ws := vfSortedWrites(v.conn.snapshot())
 		impl.N(len(ws))
 		for _, w := range ws {
 			lt := int64(-1)
 			if w.ra != nil {
 				lt = int64(w.ra.RouterLifetime)
 			}
-			impl.I(int64(w.begin)).B(w.dst == vfAllNodes).N(hostID(w.dst)).B(w.failed).I(lt)
+			impl.I(int64(w.begin)).B(w.dst == vfAllNodes).N(vfHostID(w.dst)).B(w.failed).I(lt)
 		}
 		cs := v.counters()
 		impl.N(cs["sent:unicast"]).N(cs["sent:multicast"]).N(cs["errors:transmit"])
-		for _, n := range advTypeNames {
+		for _, n := range vfAdvTypeNames {
 			impl.N(cs["recv:"+n])
 		}
-		for _, n := range advTypeNames {
+		for _, n := range vfAdvTypeNames {
 			impl.N(cs["invalid:"+n])
 		}
 		out.Line(c.String(), impl.String())
@@ -344,11 +352,11 @@ func runAdv(t *testing.T, out *vfh.Out, op string, min, max time.Duration, unica
 	})
 }
 
-func genAdvEvents(r *vfh.Rand, horizon time.Duration, validOnly bool) []advEvent {
+func vfGenAdvEvents(r *vfh.Rand, horizon time.Duration, validOnly bool) []vfAdvEvent {
 	n := r.Intn(12)
-	var evs []advEvent
+	var evs []vfAdvEvent
 	for i := 0; i < n; i++ {
-		e := advEvent{t: time.Duration(r.Range(1, int64(horizon)))|1, hop: 255, host: r.Intn(len(vfHosts)), slla: r.Bool()}
+		e := vfAdvEvent{t: time.Duration(r.Range(1, int64(horizon)))|1, hop: 255, host: r.Intn(len(vfHosts)), slla: r.Bool()}
 		switch {
 		case validOnly || r.Chance(3, 5):
 			e.kind = 0
@@ -373,13 +381,13 @@ func genAdvEvents(r *vfh.Rand, horizon time.Duration, validOnly bool) []advEvent
 			t := t0
 			for j := 0; j < k; j++ {
 				t += time.Duration(r.Range(2, int64(40*time.Millisecond)))
-				evs = append(evs, advEvent{t: t | 1, hop: 255, host: 1 + r.Intn(len(vfHosts)-1), slla: r.Bool()})
+				evs = append(evs, vfAdvEvent{t: t | 1, hop: 255, host: 1 + r.Intn(len(vfHosts)-1), slla: r.Bool()})
 			}
 			t += time.Duration(r.Range(int64(600*time.Millisecond), int64(1500*time.Millisecond)))
-			evs = append(evs, advEvent{t: t | 1, hop: 255, host: 0})
+			evs = append(evs, vfAdvEvent{t: t | 1, hop: 255, host: 0})
 			if r.Bool() {
 				t += time.Duration(r.Range(2, int64(500*time.Millisecond)))
-				evs = append(evs, advEvent{t: t | 1, hop: 255, host: r.Intn(len(vfHosts))})
+				evs = append(evs, vfAdvEvent{t: t | 1, hop: 255, host: r.Intn(len(vfHosts))})
 			}
 			t0 = t + time.Duration(r.Range(int64(100*time.Millisecond), int64(4*time.Second)))
 		}
@@ -399,18 +407,38 @@ func verifAdv(t *testing.T, r *vfh.Rand, out *vfh.Out, op string) {
 	n := vfh.N(300, 6000)
 	for i := 0; i < n; i++ {
 		max := time.Duration(r.Range(4, 30)) * time.Second
-		up := upperMin(max)
+		up := vfUpperMin(max)
 		min := max
 		if up >= 3*time.Second {
 			min = time.Duration(r.Range(3, int64(up/time.Second))) * time.Second
 		}
 		horizon := time.Duration(r.Range(2, 40)) * time.Second
-		evs := genAdvEvents(r, horizon, false)
+		evs := vfGenAdvEvents(r, horizon, false)
 		stop := (horizon + time.Duration(r.Range(0, int64(5*time.Second)))) | 1
 		fail := -1
 		if r.Chance(1, 8) {
 			fail = 1 + r.Intn(6)
 		}
-		runAdv(t, out, op, min, max, r.Chance(1, 4), evs, stop+2, fail)
+		vfRunAdv(t, out, op, min, max, r.Chance(1, 4), evs, stop+2, fail)
+	}
+}
+
+// verifAdvFail (C10): full advertiser runs in which one transmission fails — a fatal error, or a
+// transient system call error — while the task is wired to an open link-state channel: the task must
+// end with the error (fatal) or be torn down and re-dialled (transient), never linger half-alive.
+//
+//	advF … (the adv line) | … (the adv observation; its status is part of the oracle)
+func verifAdvFail(t *testing.T, r *vfh.Rand, out *vfh.Out) {
+	for k := vfh.N(60, 1500); k > 0; k-- {
+		max := time.Duration(r.Range(4, 30)) * time.Second
+		up := vfUpperMin(max)
+		min := max
+		if up >= 3*time.Second {
+			min = time.Duration(r.Range(3, int64(up/time.Second))) * time.Second
+		}
+		horizon := time.Duration(r.Range(8, 40)) * time.Second
+		evs := vfGenAdvEvents(r, horizon, true)
+		stop := (horizon + time.Duration(r.Range(0, int64(5*time.Second)))) | 1
+		vfRunAdv(t, out, "advF", min, max, r.Chance(1, 5), evs, stop+2, r.Intn(4))
 	}
 }
